@@ -38,7 +38,7 @@ theorem C16_late_instance (ci : CfgInfo) (o : Opt) (title : Option Bytes) :
 theorem C16_late_default (ci : CfgInfo) (info : OptInfo) (flags : Flags) (subs : List Decl)
     (hty : info.ty = .str) (hnd : flags.nodefault = false) (hl : flags.list = false) (hdl : info.defList = none) :
     (mkOpt ci (.mk info flags subs)).vals = [.str info.defStr] := by
-  simp [mkOpt, hty, hnd, hl, hdl, Opt.vals]
+  cases hs : info.simple <;> simp [mkOpt, hs, hty, hnd, hl, hdl, Opt.vals]
 
 /-- **C16 (sibling instances share nothing).** An update through a reference that descends into
 instance `i` of a section option leaves instance `j ≠ i` exactly as it was. -/
